@@ -125,7 +125,9 @@ func c19Run(c c19in) func(w *World) []Violation {
 		wantStatus := 200
 		threaded := ""
 		fault := func(f string) { spec.Header = append(spec.Header, [2]string{"X-Fault", f}) }
-		switch c.ending {
+		// "buffered-<ending>": the same ending on the service that buffers requests and responses
+		ending := strings.TrimPrefix(c.ending, "buffered-")
+		switch ending {
 		case "served-0":
 			spec.Plan = "r=r201"
 			wantStatus = 201
@@ -213,6 +215,13 @@ func c19Run(c c19in) func(w *World) []Violation {
 			// finding reaches by interleaving; set directly here): proxy-generated 503, no target used
 			wantTarget, wantStatus = "", 503
 			threaded = c.ending
+		}
+		if ending != c.ending {
+			spec.Host = "buf.example.com"
+			wantSvc = "buf"
+			if wantTarget != "" {
+				wantTarget = "bt:80"
+			}
 		}
 		if c.method == "HEAD" && (strings.HasPrefix(c.ending, "upgrade") || c.ending == "413" || c.ending == "500-response-too-large" || c.ending == "cut-mid-body") {
 			return nil
@@ -369,7 +378,8 @@ func c19Run(c c19in) func(w *World) []Violation {
 func c19Cases(tier string) []ECase {
 	endings := []string{"served-0", "served-1", "served-100k", "served-chunked", "served-cookies", "early-hints-then-404", "no-service", "tls-refused", "redirect", "stopped", "stopped-custom",
 		"no-healthy-target", "413", "500-response-too-large", "502-close", "502-garbage", "504-target-timeout", "cut-mid-body", "client-abort-waiting",
-		"paused-released", "paused-out", "drained-504", "upgrade-closed-by-target", "refused-by-draining-target", "client-abort-during-drain"}
+		"paused-released", "paused-out", "drained-504", "upgrade-closed-by-target", "refused-by-draining-target", "client-abort-during-drain",
+		"buffered-served-0", "buffered-served-cookies", "buffered-502-close", "buffered-504-target-timeout", "buffered-client-abort-waiting"}
 	var cases []ECase
 	for _, e := range endings {
 		for _, m := range []string{"GET", "POST", "HEAD"} {
@@ -391,7 +401,7 @@ func checkC19(t *testing.T, job *Job, res *Result) {
 	if job.Replay != nil {
 		tier = job.Replay.Tier
 	}
-	res.Rule = "25 endings (served with 5 body shapes, 103 early hints before the final status, 404, TLS refused, redirect, stopped built-in/custom page, no healthy target, 413, 500 over limit, 502 close/garbage, 504 target timeout, cut mid-body, client abort (499), paused then released, paused-out 504, drained 504, upgrade closed by the target, refused by a draining target, client abort while a pause is draining the target) x method {GET, POST, HEAD} x query {none, a=1;b} x client request id given or not x 5 log-header configurations; slog default handler replaced by a capturing handler before Server.buildHandler; oracle: exactly one Request record per request with status, byte count, method, host, path, query, request id, service, target and configured headers equal to what the client and the target observed"
+	res.Rule = "30 endings (five of them repeated on a service that buffers requests and responses; served with 5 body shapes, 103 early hints before the final status, 404, TLS refused, redirect, stopped built-in/custom page, no healthy target, 413, 500 over limit, 502 close/garbage, 504 target timeout, cut mid-body, client abort (499), paused then released, paused-out 504, drained 504, upgrade closed by the target, refused by a draining target, client abort while a pause is draining the target) x method {GET, POST, HEAD} x query {none, a=1;b} x client request id given or not x 5 log-header configurations; slog default handler replaced by a capturing handler before Server.buildHandler; oracle: exactly one Request record per request with status, byte count, method, host, path, query, request id, service, target and configured headers equal to what the client and the target observed"
 	res.Bounds = "see rule"
 	runE(t, job, res, &ESpec{Prop: "C19", Setup: c19Setup, Cases: c19Cases(tier), Batch: 120, Log: true})
 	// the same requests against a proxy restored from the state file those deployments wrote
